@@ -106,8 +106,10 @@ class Check:
         counts: Dict[str, int] = {}
         for i in self.instances:
             counts[i.rule] = counts.get(i.rule, 0) + 1
+        has_violation = {i.rule for i in self.instances if i.verdict == "violation"}
         for rid, floor in self.floors.items():
-            if counts.get(rid, 0) < floor:
+            # a rule that already reports a violation is not vacuous
+            if counts.get(rid, 0) < floor and rid not in has_violation:
                 raise AnalysisError(
                     f"rule {rid} matched {counts.get(rid, 0)} instance(s), "
                     f"floor confirmed by hand is {floor} - the rule would pass vacuously")
